@@ -1,6 +1,7 @@
 (* C16 — WebSocket frames round-trip for every size and flag combination.
    Statements only; proofs are in Ws/FrameFacts.v. *)
-From PM Require Import Lib.Bytes Ws.Frame Ws.FrameSpec Ws.FrameFacts.
+From PM Require Import Lib.Bytes Ws.Frame Ws.FrameSpec Ws.FrameFacts Ws.Sha1 Ws.Stream Ws.StreamFacts.
+From PM Require Net.Responses.
 
 (* build() emits exactly the RFC 6455 encoding of the frame it was given (all flag bits, opcodes,
    masked or not, every payload length below 2^64), and leaves payload_length = len(data). *)
@@ -53,4 +54,168 @@ Example C16_nonvacuous : forall m n, In n [0; 1; 125; 126; 127; 65535; 65536; 70
 Proof.
   intros m n Hn. apply wf_frame_dec.
   destruct m; cbn [In] in Hn; repeat (destruct Hn as [<-|Hn]; [vm_compute; reflexivity|]); contradiction.
+Qed.
+
+
+(* ====================================================================================================
+   The frame STREAM as the web server reads it (HttpWebServerPlugin.on_client_data, websocket branch,
+   under HttpProtocolHandler.handle_data) and the handshake.  Proofs are in Ws/StreamFacts.v.
+   enc_all fs = the concatenation of the RFC 6455 encodings of fs (= what build() emits, C16_build_is_rfc);
+   seen a     = the fields and payload the route's on_websocket_message is shown for frame a;
+   not_close  = opcode other than CONNECTION_CLOSE.
+   ==================================================================================================== *)
+
+(* frame.parse consumes at least two bytes whenever it returns: the loop always progresses *)
+Theorem C16_parse_progress : forall self raw f rest,
+  parse self raw = Ok (f, rest) -> (length rest + 2 <= length raw)%nat.
+Proof. exact parse_progress. Qed.
+Print Assumptions C16_parse_progress.
+
+(* the receive loop terminates on EVERY input with the fuel on_client_data gives it (never OutOfFuel),
+   and any larger fuel gives the same run *)
+Theorem C16_stream_terminates : forall has_route f raw,
+  snd (ws_loop (ws_fuel raw) has_route f raw) <> WsOutOfFuel /\
+  forall fuel, (length raw < fuel)%nat -> ws_loop fuel has_route f raw = ws_loop (ws_fuel raw) has_route f raw.
+Proof. exact stream_terminates. Qed.
+Print Assumptions C16_stream_terminates.
+
+(* stream decode, one segment: for every list of well-formed frames without a close frame, delivered in
+   ONE segment, on_client_data hands exactly these frames (all fields and payloads), in order, to
+   on_websocket_message, consumes every byte and returns normally *)
+Theorem C16_stream_decode : forall fs,
+  Forall wf_aframe fs -> Forall not_close fs ->
+  on_client_data true true true (enc_all fs) = OcdWebsocket (map seen fs) WsReturned.
+Proof. exact on_client_data_stream. Qed.
+Print Assumptions C16_stream_decode.
+
+(* the same over a whole connection: any number of segments, each made of whole frames *)
+Theorem C16_stream_decode_segments : forall fss,
+  Forall (Forall wf_aframe) fss -> Forall (Forall not_close) fss ->
+  ws_conn (map enc_all fss) = (map seen (concat fss), ConnOpen).
+Proof. exact ws_conn_streams. Qed.
+Print Assumptions C16_stream_decode_segments.
+
+(* a close frame ends the dispatch: the frames before it (earlier segments and same segment) are delivered,
+   the close frame itself is NOT handed to the route, the handler tears the connection down, and neither the
+   bytes after the close frame in the same segment (arbitrary bytes [rest]) nor any later segment is looked at *)
+Theorem C16_stream_close : forall fss fs c rest later,
+  Forall (Forall wf_aframe) fss -> Forall (Forall not_close) fss ->
+  Forall wf_aframe fs -> Forall not_close fs -> wf_aframe c -> a_opcode c = CONNECTION_CLOSE ->
+  ws_conn (map enc_all fss ++ (enc_all fs ++ rfc_encode c ++ rest) :: later) =
+  (map seen (concat fss ++ fs), ConnTeardown).
+Proof. exact ws_conn_close. Qed.
+Print Assumptions C16_stream_close.
+
+(* ---- segments that do not end at a frame boundary: exactly what happens (FINDING C16-ws-no-reassembly) *)
+
+(* on ANY input frame.parse raises only IndexError (fewer than 2 bytes left) or struct.error (extended length
+   field cut); neither is caught by on_client_data, handle_data, handle_readables or handle_events *)
+Theorem C16_parse_errors : forall self raw e,
+  parse self raw = Err e ->
+  (e = IndexError /\ (length raw < 2)%nat) \/
+  (e = StructError /\ (2 <= length raw)%nat /\ ext_len_missing raw = true).
+Proof. exact parse_errors. Qed.
+Print Assumptions C16_parse_errors.
+
+(* a segment ending k bytes into the payload of a frame (k < its length): the frames before are delivered,
+   then the route is handed a SHORT message (payload_length = the announced length, data = the first k bytes),
+   no exception is raised, the connection stays open, and the next segment is parsed from its first byte as
+   if a new frame started there *)
+Theorem C16_stream_cut_payload : forall fs a k segs,
+  Forall wf_aframe fs -> Forall not_close fs -> wf_aframe a -> not_close a ->
+  (k < length (a_payload a))%nat ->
+  rfc_encode a = cut_encoding a k ++ skipn k (unmask a (a_payload a)) /\
+  ws_conn ((enc_all fs ++ cut_encoding a k) :: segs) =
+  (map seen fs ++ cut_frame a k :: fst (ws_conn segs), snd (ws_conn segs)).
+Proof. exact stream_cut_payload. Qed.
+Print Assumptions C16_stream_cut_payload.
+
+(* a segment ending one byte into a frame: IndexError leaves the handler (the executor drops the connection) *)
+Theorem C16_stream_cut_header : forall fs x later,
+  Forall wf_aframe fs -> Forall not_close fs ->
+  ws_conn ((enc_all fs ++ [x]) :: later) = (map seen fs, ConnEscaped IndexError).
+Proof. exact ws_conn_one_byte. Qed.
+Print Assumptions C16_stream_cut_header.
+
+(* full statement that does NOT hold: "for every segmentation segs of enc_all fs, ws_conn segs = (map seen fs, ConnOpen)".
+   Witness: one unmasked text frame "hello" received as 4 + 3 bytes. *)
+Theorem C16_stream_segmentation_refuted :
+  exists fs seg1 seg2,
+    Forall wf_aframe fs /\ Forall not_close fs /\ seg1 ++ seg2 = enc_all fs /\
+    ws_conn [enc_all fs] = (map seen fs, ConnOpen) /\
+    ws_conn [seg1; seg2] <> (map seen fs, ConnOpen).
+Proof. exact split_refuted. Qed.
+Print Assumptions C16_stream_segmentation_refuted.
+
+(* ---- handshake *)
+
+(* for EVERY key the accept token is base64(sha1(key ++ GUID)) (definition of key_to_accept, C16's reference
+   Ws/Sha1.v), 28 characters of the base64 alphabet *)
+Theorem C16_accept_token_shape : forall key,
+  key_to_accept key = b64encode (sha1 (key ++ GUID)) /\
+  length (key_to_accept key) = 28%nat /\ forallb is_b64 (key_to_accept key) = true.
+Proof. exact accept_token_shape. Qed.
+Print Assumptions C16_accept_token_shape.
+
+(* switch_to_websocket queues, for every key, exactly these bytes ... *)
+Theorem C16_handshake_bytes : forall key,
+  switch_to_websocket (Some key) = Ok (
+    bytes_of_string "HTTP/1.1 101 Switching Protocols" ++ CRLF ++
+    bytes_of_string "Upgrade: websocket" ++ CRLF ++
+    bytes_of_string "Connection: Upgrade" ++ CRLF ++
+    bytes_of_string "Sec-WebSocket-Accept: " ++ b64encode (sha1 (key ++ GUID)) ++ CRLF ++
+    bytes_of_string "Content-Length: 0" ++ CRLF ++ CRLF).
+Proof. exact handshake_bytes. Qed.
+Print Assumptions C16_handshake_bytes.
+
+(* ... which the RFC 7230 recogniser of Net/Responses.v reads (strict status-line grammar) as: version HTTP/1.1,
+   status 101, reason "Switching Protocols", the four header fields below in this order with
+   Sec-WebSocket-Accept = base64(sha1(key ++ GUID)), end of header section, and NOTHING after it.
+   (Responses.recognise itself is for final responses, status >= 200, so its two stages are stated.)
+   Note the fourth field: a 101 response carries "Content-Length: 0", which RFC 7230 section 3.3.2 forbids
+   for 1xx responses (minor finding C16-handshake-content-length; clients ignore it). *)
+Theorem C16_handshake_wellformed : forall key,
+  exists line rest,
+    split_once CRLF (build_websocket_handshake_response (key_to_accept key)) = Some (line, rest) /\
+    PM.Net.Responses.parse_status_line true line =
+      Some (PM.Net.Responses.HTTP11, 101, Some SWITCHING_PROTOCOLS) /\
+    PM.Net.Responses.parse_header_fields (S (length rest)) rest =
+      Some ([(K_UPGRADE, V_WEBSOCKET); (K_CONNECTION, V_UPGRADE);
+             (K_ACCEPT, b64encode (sha1 (key ++ GUID)));
+             (PM.Net.Responses.K_CONTENT_LENGTH, [48])], []).
+Proof. exact handshake_wellformed. Qed.
+Print Assumptions C16_handshake_wellformed.
+
+(* an upgrade request without Sec-WebSocket-Key: KeyError, which nobody catches *)
+Theorem C16_handshake_missing_key : switch_to_websocket None = Err KeyError.
+Proof. exact handshake_missing_key. Qed.
+Print Assumptions C16_handshake_missing_key.
+
+(* WebsocketClient: upgrade() accepts exactly the token the server computes for its key; run_once hands the
+   FIRST frame of a received segment to on_message and drops every byte after it (arbitrary t) *)
+Theorem C16_client : forall key accept a t,
+  (client_upgrade_check key accept = Ok tt <-> accept = key_to_accept key) /\
+  (wf_aframe a -> client_on_read (rfc_encode a ++ t) = Ok (seen a)).
+Proof. exact client_facts. Qed.
+Print Assumptions C16_client.
+
+(* non-vacuity: a concrete stream (unmasked text, masked binary of 130 bytes = 16-bit length form, empty
+   text, masked empty ping) and a masked close frame satisfy the hypotheses; the decode, close and cut
+   theorems applied to them give concrete runs *)
+Example C16_stream_nonvacuous :
+  Forall wf_aframe ex_stream /\ Forall not_close ex_stream /\ length ex_stream = 4%nat /\
+  wf_aframe close_frame /\ a_opcode close_frame = CONNECTION_CLOSE /\
+  ws_conn [enc_all ex_stream] = (map seen ex_stream, ConnOpen) /\
+  ws_conn [enc_all [ex_hello] ++ rfc_encode close_frame ++ enc_all [ex_masked]; enc_all [ex_hello]] =
+    ([seen ex_hello], ConnTeardown) /\
+  ws_conn [enc_all [ex_hello] ++ cut_encoding ex_masked 7] = ([seen ex_hello; cut_frame ex_masked 7], ConnOpen) /\
+  ws_conn [[129; 126; 0]] = ([], ConnEscaped StructError) /\
+  switch_to_websocket (Some (bytes_of_string "dGhlIHNhbXBsZSBub25jZQ==")) =
+    Ok (build_websocket_handshake_response (bytes_of_string "s3pPLMBiTxaQ9kYGzzhZRbK+xOo=")).
+Proof.
+  destruct ex_stream_wf as [W C]. destruct close_frame_wf as [Wc Cc].
+  split; [exact W|]. split; [exact C|]. split; [reflexivity|]. split; [exact Wc|]. split; [exact Cc|].
+  split; [vm_compute; reflexivity|]. split; [vm_compute; reflexivity|].
+  split; [vm_compute; reflexivity|]. split; [vm_compute; reflexivity|].
+  cbn [switch_to_websocket]. rewrite accept_rfc_example. reflexivity.
 Qed.
